@@ -11,7 +11,7 @@ pub fn spec(tier: Tier) -> RunSpec {
         16,
         "sections: exhaustive-len0-2 / exhaustive-len3 (thorough; every byte string of length 0..3, enumerated, distinct by construction), \
 boundary-cube (every 3-byte group over a 48-value boundary set), random-groups (seeded 3-byte groups), random-strings (proptest, lengths covering every residue mod 3, \
-quick ≤ 4 KiB, thorough up to 64 KiB±2), negatives (every single-character replacement class of valid text by a character outside [A-Za-z0-9+/=]). \
+quick ≤ 4 KiB, thorough up to 64 KiB±2; section encode-long: inputs of 4094 .. 70 000 bytes - lengths around the powers of two, every residue mod 3 - through the encoder alone, compared with the reference encoder), negatives (every single-character replacement class of valid text by a character outside [A-Za-z0-9+/=]). \
 Oracle: harness's own table-driven RFC 4648 encoder (M-B64) for encode, decode(encode(x)) == x, negatives must be Err. \
 Non-trivial = input length >= 1 (every group exercises the bit masks); distinct by input bytes (hash set for generated cases, by construction for enumerations).",
         &["M-B64, the harness's 20-line RFC 4648 encoder, is correct (checked against the RFC 4648 section 10 vectors at start-up)",
@@ -45,6 +45,21 @@ pub enum Case {
     RoundTrip { data: Bytes },
     #[serde(rename = "negative")]
     Negative { data: Bytes, pos: u16, ch: String },
+    /// encoder only, against the reference encoder (the library's decoder is quadratic: long inputs are not decoded back in the quick tier)
+    #[serde(rename = "encode")]
+    Encode { data: Bytes },
+}
+
+pub fn check_encode(data: &[u8]) -> Verdict {
+    let expected = ref_encode(data);
+    match catch(|| Base64::encode(data)) {
+        Err((msg, _)) => Verdict::fail(format!("panic:encode:{}", msg), format!("Base64::encode panicked on {} bytes", data.len())),
+        Ok(Err(e)) => Verdict::fail("encode-returns-err", format!("Base64::encode returned Err({}) for {} bytes", e, data.len())),
+        Ok(Ok(s)) => if s != expected {
+            let at = s.bytes().zip(expected.bytes()).take_while(|(a, b)| a == b).count();
+            Verdict::fail("encode-differs-from-rfc4648", format!("{} input bytes: encode gave {} characters, the RFC 4648 text has {}; first difference at character {}", data.len(), s.len(), expected.len(), at))
+        } else { Verdict::passc(true, vec![if data.len() > 4096 { "encode-only-longer-than-4096" } else { "encode-only" }]) },
+    }
 }
 
 pub fn check_roundtrip(data: &[u8]) -> Verdict {
@@ -90,6 +105,7 @@ pub fn eval(case: &Case) -> Verdict {
     match case {
         Case::RoundTrip { data } => check_roundtrip(&data.0),
         Case::Negative { data, pos, ch } => check_negative(&data.0, *pos, ch),
+        Case::Encode { data } => check_encode(&data.0),
     }
 }
 
@@ -165,6 +181,14 @@ pub fn run(ctx: &Ctx) {
         ]
     }).prop_map(|v| Case::RoundTrip { data: Bytes(v) });
     ctx.prop("random-strings", ctx.share(ctx.scale(12_000, 200_000)), strat, eval);
+
+    // long inputs through the encoder alone: lengths around the powers of two up to 64 KiB (every residue mod 3) and random lengths up to 70 000
+    let long_len = prop_oneof![
+        3 => (prop::sample::select(vec![4096usize, 8192, 12288, 16384, 32768, 49152, 65536]), 0usize..5).prop_map(|(p, d)| p + d - 2),
+        2 => 4097usize..70_000,
+    ];
+    let long = long_len.prop_flat_map(|n| proptest::collection::vec(any::<u8>(), n..=n)).prop_map(|v| Case::Encode { data: Bytes(v) });
+    ctx.prop("encode-long", ctx.share(ctx.scale(800, 40_000)), long, eval);
 
     if ctx.tier == Tier::Thorough {
         // a few long strings at 64 KiB ± {0,1,2} (decoder is quadratic)
